@@ -105,6 +105,7 @@ def scan_all_rows(family):
     rows = np.arange(R)
     grid = np.linspace(lo, hi, 4001)
     out = []
+    locfind = []
     for sign, table, word in ((1.0, mn, 'minimum'), (-1.0, mx, 'maximum')):
         best_x = np.zeros(R); best_v = np.full(R, np.inf)
         for blk in range(0, R, 100):
@@ -123,12 +124,22 @@ def scan_all_rows(family):
             v = sign * best_v[k]
             if (sign > 0 and v < tv - 1e-4) or (sign < 0 and v > tv + 1e-4):      # the function goes beyond the published extreme value
                 out.append((k, word, float(best_x[k]), float(v), tv, tx))
+            elif abs(best_x[k] - tx) > 2e-4 * (hi - lo):      # the published LOCATION: a strictly better extremum lies elsewhere
+                vt = float((sign * f(np.array([k]), np.array([[tx]])))[0, 0])
+                if best_v[k] < vt - 2e-5:
+                    locfind.append((k, word, float(best_x[k]), float(v), sign * vt, tx))
     res = []
     for k, word, x, v, tv, tx in out[:6]:      # confirm on the implementation
         pb = problem(family, k=k)
         real = calc(pb, [x])
         if (word == 'minimum' and real < tv - 1e-4) or (word == 'maximum' and real > tv + 1e-4):
             res.append((k, '%s row %d: Calculate(%r) = %r, but the published %s is %r (at %r)' % (family, k, x, real, word, tv, tx), {'point': [x]}))
+    for k, word, x, v, vt, tx in locfind[:6]:      # location findings, confirmed on the implementation
+        pb = problem(family, k=k)
+        rx, rt = calc(pb, [x]), calc(pb, [tx])
+        if (word == 'minimum' and rx < rt - 2e-5) or (word == 'maximum' and rx > rt + 2e-5):
+            res.append((k, '%s row %d: the published %s location %r has value %r, but Calculate(%r) = %r: the %s lies %.3g of the range away from the table entry'
+                        % (family, k, word, tx, rt, x, rx, word, abs(x - tx) / (hi - lo)), {'point': [x]}))
     return res, R
 
 
